@@ -221,23 +221,29 @@ C15Case(P, t) ==
       lb == Msg("ListB", FN(P, "ListB"), <<Ann(F("vals", "vals", 1, "string", "rep"), "unwrap", TRUE)>>)
       ma == Msg("MapA", FN(P, "MapA"), <<FMap("by_a", "byA", 1, "string", "message", FN(P, "ListA")), FMap("by_b", "byB", 2, "string", "message", FN(P, "ListB"))>>)
       mb == Msg("MapB", FN(P, "MapB"), <<FMap("by_a", "byA", 1, "string", "message", FN(P, "ListA"))>>)
+      \* root-unwrapped maps whose value messages (with their own unwrap field) live in other files
+      ra == Msg("RootA", FN(P, "RootA"), <<Ann(FMap("m", "m", 1, "string", "message", FN(P, "ListA")), "unwrap", TRUE)>>)
+      rb == Msg("RootB", FN(P, "RootB"), <<Ann(FMap("m", "m", 1, "string", "message", FN(P, "ListB")), "unwrap", TRUE)>>)
       hv  == <<Header("x-zeta", "string", "", TRUE), Header("X-ALPHA", "string", "", TRUE), Header("X-Mid", "string", "", TRUE),
                Header("X-New", "string", "", FALSE), Header("x-new", "integer", "", FALSE)>>
       doA == MethodHeaders(Method("DoA", FN(P, "MapA"), FN(P, "MapB"), TRUE, Parts(TRUE, <<Lit("a")>>, FALSE), "POST"), hv)
       doW == Method("DoW", FN(P, "W"), FN(P, "W"), TRUE, Parts(TRUE, <<Lit("w")>>, FALSE), "POST")
       s1 == WithHeaders(Service("SvcOne", TRUE, Parts(TRUE, <<Lit("one")>>, FALSE), <<doA, doW>>), H3)
-      s2 == WithHeaders(Service("SvcTwo", FALSE, NoParts, <<Method("Other", FN(P, "MapB"), FN(P, "Out"), TRUE, Parts(TRUE, <<Lit("o")>>, FALSE), "POST")>>), H3)
+      s2 == WithHeaders(Service("SvcTwo", FALSE, NoParts, <<Method("Other", FN(P, "MapB"), FN(P, "Out"), TRUE, Parts(TRUE, <<Lit("o")>>, FALSE), "POST"),
+                                                           Method("Roots", FN(P, "RootA"), FN(P, "RootB"), TRUE, Parts(TRUE, <<Lit("r")>>, FALSE), "POST")>>), H3)
   IN Schema(<<File(P \o "/types_a.proto", Pkg(P), GoPkg(P), TRUE, <<>>, <<>>, <<Child(P), Child2(P), la>>, <<EnumE>>),
               File(P \o "/types_b.proto", Pkg(P), GoPkg(P), TRUE, <<P \o "/types_a.proto">>, <<>>, <<lb, ma>> \o TwinMsgs(P, t), <<EnumPlain>>),
               File(P \o "/svc.proto", Pkg(P), GoPkg(P), TRUE, <<P \o "/types_a.proto", P \o "/types_b.proto">>,
-                   <<s1, s2>>, <<Out(P), mb>>, <<>>)>>)
+                   <<s1, s2>>, <<Out(P), mb, ra, rb>>, <<>>)>>)
 Variants == {"base", "repeat", "permuted", "single", "extra_unrelated", "procs1"}
 
 (***************************************************************************)
 (* C16: descriptor graph shapes.                                           *)
 (***************************************************************************)
 Shapes == {"self_rec", "mutual_rec", "rec_via_map", "rec_via_oneof", "rec_via_repeated", "nested_types", "empty_msg",
-           "svc_no_methods", "no_package", "no_go_package", "shared_req", "wkt", "optional", "deep", "long_names", "rec_response"}
+           "svc_no_methods", "no_package", "no_go_package", "shared_req", "wkt", "optional", "deep", "long_names", "rec_response",
+           \* cycles that run through annotated constructs (the traversals of the codec generators)
+           "rec_flat_oneof", "rec_disc_oneof", "rec_under_flatten", "rec_unwrap", "rec_flatten_self"}
 RECURSIVE DeepMsgs(_, _, _)
 DeepMsgs(P, i, n) ==
   IF i > n THEN <<>>
@@ -255,6 +261,22 @@ C16Case(P, sh, depth) ==
        [] sh = "rec_via_map" -> std(<<w(<<FMap("kids", "kids", 1, "string", "message", FN(P, "W")), F("s", "s", 2, "int32", "one")>>)>>)
        [] sh = "rec_via_oneof" -> std(<<MsgO("W", FN(P, "W"), <<InOneof(FRef("a", "a", 1, "message", "one", FN(P, "W")), "o"),
                                                                InOneof(F("b", "b", 2, "string", "one"), "o")>>, <<Oneof("o", FALSE, "", FALSE)>>)>>)
+       [] sh = "rec_flat_oneof" ->    \* a flattened field whose message has a flattened discriminated oneof leading back to itself
+            std(<<w(<<F("id", "id", 1, "string", "one"), Ann(FRef("filter", "filter", 2, "message", "one", FN(P, "Filter")), "flatten", TRUE)>>),
+                  MsgO("Filter", FN(P, "Filter"), <<InOneof(FRef("not", "not", 1, "message", "one", FN(P, "Filter")), "kind"),
+                                                   InOneof(FRef("term", "term", 2, "message", "one", FN(P, "Term")), "kind")>>, <<Oneof("kind", TRUE, "op", TRUE)>>),
+                  Msg("Term", FN(P, "Term"), <<F("field", "field", 1, "string", "one"), F("value", "value", 2, "string", "one")>>)>>)
+       [] sh = "rec_disc_oneof" ->    \* a discriminated (nested) oneof with a variant of the message's own type
+            std(<<MsgO("W", FN(P, "W"), <<F("k", "k", 1, "string", "one"), InOneof(FRef("a", "a", 2, "message", "one", FN(P, "W")), "o"),
+                                         InOneof(FRef("b", "b", 3, "message", "one", FN(P, "Child")), "o")>>, <<Oneof("o", TRUE, "kind", FALSE)>>), Child(P)>>)
+       [] sh = "rec_under_flatten" -> \* a flattened child that refers back to its parent through an ordinary field
+            std(<<w(<<F("k", "k", 1, "string", "one"), Ann(FRef("c", "c", 2, "message", "one", FN(P, "C")), "flatten", TRUE)>>),
+                  Msg("C", FN(P, "C"), <<F("x", "x", 1, "string", "one"), FRef("back", "back", 2, "message", "one", FN(P, "W"))>>)>>)
+       [] sh = "rec_unwrap" ->        \* a map whose unwrapped value list holds the containing message again
+            std(<<w(<<F("k", "k", 1, "string", "one"), FMap("by", "by", 2, "string", "message", FN(P, "L"))>>),
+                  Msg("L", FN(P, "L"), <<Ann(FRef("items", "items", 1, "message", "rep", FN(P, "W")), "unwrap", TRUE)>>)>>)
+       [] sh = "rec_flatten_self" ->  \* a message that flattens a field of its own type (no finite JSON form: answer, do not hang)
+            std(<<w(<<F("k", "k", 1, "string", "one"), Ann(Ann(FRef("me", "me", 2, "message", "one", FN(P, "W")), "flatten", TRUE), "prefix", "me_")>>)>>)
        [] sh = "rec_via_repeated" -> std(<<w(<<FRef("kids", "kids", 1, "message", "rep", FN(P, "W")), F("n", "n", 2, "float", "one")>>)>>)
        [] sh = "rec_response" -> std(<<w(<<F("k", "k", 1, "int32", "one"), FRef("child", "child", 2, "message", "opt", FN(P, "W")),
                                         FRef("ts", "ts", 3, "message", "one", "google.protobuf.Timestamp")>>)>>)
@@ -565,7 +587,7 @@ C20Case(P, k, c, ex, nest) ==
 (***************************************************************************)
 (* C18: document-level shapes.                                             *)
 (***************************************************************************)
-C18Shapes == {"same_named_nested", "multi_service", "imported_msgs", "path_and_query", "headers"}
+C18Shapes == {"same_named_nested", "multi_service", "imported_msgs", "path_and_query", "headers", "same_name_other_location", "date_examples"}
 C18Case(P, sh) ==
   LET do(n, in, out, parts, verb) == Method(n, in, out, TRUE, parts, verb)
   IN CASE sh = "same_named_nested" ->
@@ -598,6 +620,23 @@ C18Case(P, sh) ==
                           <<Out(P), Msg("Q", FN(P, "Q"), <<F("org_id", "orgId", 1, "string", "one"), F("item_id", "itemId", 2, "int64", "one"),
                                                           [Ann(F("page", "page", 3, "int32", "one"), "query", TRUE) EXCEPT !.ann.queryName = "p"],
                                                           Ann(F("org", "org", 4, "string", "one"), "query", TRUE)>>)>>, <<>>)>>)
+       \* one name in two locations: a path variable, a query parameter (custom name) and a header called alike
+       [] sh = "same_name_other_location" ->
+            Schema(<<File(P \o "/svc.proto", Pkg(P), GoPkg(P), TRUE, <<>>,
+                          <<Svc(P, <<MethodHeaders(do("List", FN(P, "Q"), FN(P, "Out"), Parts(TRUE, <<Lit("orgs"), Var("org"), Lit("members")>>, FALSE), "GET"),
+                                                   <<Header("org", "string", "", FALSE)>>),
+                                     do("Move", FN(P, "Q"), FN(P, "Out"), Parts(TRUE, <<Lit("orgs"), Var("org"), Lit("move")>>, FALSE), "POST")>>)>>,
+                          <<Out(P), Msg("Q", FN(P, "Q"), <<F("org", "org", 1, "string", "one"),
+                                                          [Ann(F("home_org", "homeOrg", 2, "string", "one"), "query", TRUE) EXCEPT !.ann.queryName = "org"]>>)>>, <<>>)>>)
+       \* example values that look like dates / times (a renderer must not re-type them)
+       [] sh = "date_examples" ->
+            Schema(<<File(P \o "/svc.proto", Pkg(P), GoPkg(P), TRUE, <<>>,
+                          <<WithHeaders(Svc(P, <<do("Do", FN(P, "In"), FN(P, "Out"), Parts(TRUE, <<Lit("do")>>, FALSE), "POST")>>),
+                                        <<[Header("X-Since", "string", "date", FALSE) EXCEPT !.example = "2024-01-15"],
+                                          [Header("X-At", "string", "date-time", FALSE) EXCEPT !.example = "2024-01-15T10:30:00Z"],
+                                          [Header("X-Clock", "string", "time", FALSE) EXCEPT !.example = "10:30:00"]>>)>>,
+                          <<Msg("In", FN(P, "In"), <<[F("day", "day", 1, "string", "one") EXCEPT !.ann.examples = <<"2024-01-15", "2001-12-14t21:59:43.10-05:00">>],
+                                                     [F("ver", "ver", 2, "string", "one") EXCEPT !.ann.examples = <<"1.0", "0x1F", "1_000", ".inf">>]>>), Out(P)>>, <<>>)>>)
        [] sh = "headers" ->
             Schema(<<File(P \o "/svc.proto", Pkg(P), GoPkg(P), TRUE, <<>>,
                           <<WithHeaders(Svc(P, <<MethodHeaders(do("Do", FN(P, "In"), FN(P, "Out"), Parts(TRUE, <<Lit("do")>>, FALSE), "POST"),
@@ -612,7 +651,7 @@ C18Case(P, sh) ==
 (* top-level message.                                                      *)
 (***************************************************************************)
 Constructs == {"kinds", "wkt", "wkt2", "int64num", "enumcustom", "enumnum", "nullable", "empty", "ts", "bytes", "oneof", "oneofflat", "flatten",
-               "flattenprefix", "unwraplist", "unwrapmap", "multiword", "int64rep", "plain", "required"}
+               "flattenprefix", "unwraplist", "unwrapmap", "multiword", "int64rep", "plain", "required", "oneofplus"}
 \* the annotated message A (and the helper messages it needs)
 ConstructMsgs(P, c) ==
   LET a(fs) == Msg("A", FN(P, "A"), fs)
@@ -641,6 +680,12 @@ ConstructMsgs(P, c) ==
        [] c = "required"   -> <<a(<<Req(F("k", "k", 1, "string", "one")), Req(Ann(FRef("c", "c", 2, "message", "one", ch), "flatten", TRUE)),
                                    Req(FRef("d", "d", 3, "message", "one", ch)), Req(F("tags", "tags", 4, "string", "rep")),
                                    Req(F("n", "n", 5, "int64", "one")), F("free", "free", 6, "string", "one")>>)>>
+       \* a discriminated oneof next to the other things protobuf models as oneofs: a proto3 optional field
+       \* (synthetic oneof) and an ordinary, un-annotated oneof
+       [] c = "oneofplus"  -> <<MsgO("A", FN(P, "A"), <<F("k", "k", 1, "string", "one"), F("note", "note", 2, "string", "opt"),
+                                     InOneof(FRef("a", "a", 3, "message", "one", ch), "o"), InOneof(FRef("b", "b", 4, "message", "one", c2), "o"),
+                                     InOneof(F("user_id", "userId", 5, "string", "one"), "actor"), InOneof(F("system", "system", 6, "bool", "one"), "actor")>>,
+                                 <<Oneof("o", TRUE, "type", TRUE), Oneof("actor", FALSE, "", FALSE)>>)>>
        [] c = "unwraplist" -> <<a(<<Ann(F("items", "items", 1, "string", "rep"), "unwrap", TRUE)>>)>>
        [] c = "unwrapmap"  -> <<Msg("L", FN(P, "L"), <<Ann(FRef("items", "items", 1, "message", "rep", ch), "unwrap", TRUE)>>),
                                 a(<<FMap("by_key", "byKey", 1, "string", "message", FN(P, "L")), F("sib_ling", "sibLing", 2, "string", "one")>>)>>
